@@ -88,6 +88,15 @@ VC_ENSURES(VC_RET == writer->buffer_used)                                       
 }
 
 bool binson_write_name(binson_writer *writer, const char *name)
+VC_REQUIRES(VC_W_PTRS(writer))
+VC_REQUIRES(vc_cstr_max <= VC_MAX_NAME && VC_FRESH(name, vc_cstr_max + 1) && name[vc_cstr_max] == 0)
+VC_ASSIGNS(vc_strlen_result, VC_W_FRAME(writer))
+VC_ENSURES(VC_W_SAME_CONFIG(writer))
+VC_ENSURES(VC_W_POST_COUNTER(writer, VC_OLD(writer->buffer_used),
+                             (size_t) 1 + VC_WIDTH((int64_t) vc_strlen_result) + vc_strlen_result))   /*@ counter-exact */
+VC_ENSURES(VC_W_POST_ERROR(writer, VC_OLD(writer->buffer_used), VC_OLD(writer->error_flags),
+                           (size_t) 1 + VC_WIDTH((int64_t) vc_strlen_result) + vc_strlen_result))     /*@ range-iff */
+VC_ENSURES(VC_RET == (writer->error_flags == BINSON_ERROR_NONE))                                  /*@ ret-iff-no-error */
 {
     if (NULL == writer) {
         return false;
@@ -222,6 +231,23 @@ VC_ENSURES((writer->error_flags == BINSON_ERROR_NONE && vc_j < length) ==>
 }
 
 bool binson_parser_to_writer(binson_parser *parser, binson_writer *writer)
+VC_REQUIRES(VC_PTRS(parser) && VC_INV(parser) && VC_W_PTRS(writer))
+VC_ASSIGNS(VC_NAV_FRAME(parser), VC_W_FRAME(writer))
+VC_ENSURES(VC_W_SAME_CONFIG(writer) && VC_INV(parser))                                            /*@ inv-preserved */
+VC_ENSURES(!VC_RET ==> (writer->buffer_used == VC_OLD(writer->buffer_used) ||
+                        writer->error_flags != BINSON_ERROR_NONE))                                 /*@ to-writer-false-appends-nothing-or-errs */
+VC_ENSURES((VC_OLD(parser->error_flags) == BINSON_ERROR_NONE &&
+            VC_OLD(parser->current_state->current_type) != BINSON_TYPE_OBJECT &&
+            VC_OLD(parser->current_state->current_type) != BINSON_TYPE_ARRAY) ==>
+           (!VC_RET && writer->buffer_used == VC_OLD(writer->buffer_used) &&
+            writer->error_flags == VC_OLD(writer->error_flags) &&
+            parser->buffer_used == VC_OLD(parser->buffer_used) && parser->depth == VC_OLD(parser->depth)))  /*@ raw-noncontainer */
+VC_ENSURES(VC_RET ==> (writer->error_flags == BINSON_ERROR_NONE &&
+                       writer->buffer_used - VC_OLD(writer->buffer_used) ==
+                       parser->buffer_used - VC_OLD(parser->buffer_used)))                         /*@ to-writer-appends-raw */
+VC_ENSURES((VC_RET && vc_j < parser->buffer_used - VC_OLD(parser->buffer_used)) ==>
+           writer->buffer[VC_OLD(writer->buffer_used) + vc_j] ==
+           parser->buffer[VC_OLD(parser->buffer_used) + vc_j])                                     /*@ to-writer-bytes-verbatim */
 {
     if (NULL == writer) {
         return false;
@@ -264,6 +290,8 @@ VC_ENSURES((writer->error_flags == BINSON_ERROR_NONE && vc_j < length) ==>
 }
 
 bool binson_writer_verify(binson_writer *writer)
+VC_REQUIRES(VC_W_PTRS(writer) && writer->buffer != NULL && writer->buffer_used <= writer->buffer_size)
+VC_ASSIGNS()
 {
     if (NULL == writer) {
         return false;
